@@ -24,7 +24,7 @@ RULE = ("pool of diversely-typed values (built-ins, str/int/dict/list/tuple subc
         "child forked from a parent that imported the library and processed nothing, then EVERY probe in its own grandchild; "
         "the outcome (accept / exception class / category / stored form) must equal the probe's outcome in a genuinely fresh "
         "interpreter; non-trivial = distinct (history, probe) pairs")
-BOUNDS = {"quick": "all warm-up histories of length <= 1 x all probes over 8 channels", "thorough": "13 channels, length <= 2 over the full pool"}
+BOUNDS = {"quick": "all warm-up histories of length <= 1 x all probes over 8 channels", "thorough": "13 channels; length <= 2 with the second event over every value through 2 channels"}
 ASSUMPTIONS = ["numpy from the offline wheelhouse is installed privately under /verif/.deps for this check only",
                "the pool of types is finite; outcomes are compared as (status, exception class, stored plain form)"]
 
@@ -413,7 +413,9 @@ def run_task(task):
     p = pool()
     histories = [[first]] if first else [[]]
     if first and task["tier"] != "quick":
-        histories += [[first, e2] for e2 in evs]
+        # length-2 warm-ups: the second event ranges over every value through two channels (one validator, one
+        # collection) - the full square (every event twice) is ~560 000 forked probes per task and never finished
+        histories += [[first, e2] for e2 in evs if e2[0] in ("json_format_validator", "setitem_dict")]
     # baselines: pristine forked child for every probe, plus genuinely fresh interpreters for this task's own value
     base = {tuple(k.split("|")): v for k, v in _BASE.items()}  # inherited from the planning process by fork
     if not base:
